@@ -31,19 +31,31 @@ def main() -> int:
     replay = None
     if "--replay" in args:
         replay = args[args.index("--replay") + 1]
+        # a replay runs under the string-hash seed of the run that recorded it
+        try:
+            import json
+
+            hs = json.load(open(replay)).get("pythonhashseed")
+        except Exception:  # noqa: BLE001
+            hs = None
+        if hs is not None and os.environ.get("PYTHONHASHSEED") != str(hs) and not os.environ.get("VERIF_REEXEC"):
+            os.execve(sys.executable, [sys.executable, "-B", *sys.argv],
+                      dict(os.environ, PYTHONHASHSEED=str(hs), VERIF_REEXEC="1"))
     ctx = core.Ctx(prop, tier)
+    repo = os.environ.get("LW_REPO", "/repo")
+    # line coverage of the implementation (started before lightworks is imported so that module-level
+    # statements are not reported as missing)
+    cov = core.ImplCoverage(prop, repo) if (ctx.thorough or os.environ.get("VERIF_COVERAGE")) and not replay else None
+    if cov:
+        cov.start()
     try:
         mod = importlib.import_module(f"props.{prop.lower()}")
         audit = core.proof_audit(prop, thorough=ctx.thorough and getattr(mod, "LEANCHECKER", True))
         # the implementation under test must be the one in /repo's working tree
         import lightworks
 
-        repo = os.environ.get("LW_REPO", "/repo")
         if not os.path.realpath(lightworks.__file__).startswith(os.path.realpath(repo) + os.sep):
             raise core.MachineryFault(f"lightworks imported from {lightworks.__file__}, not from {repo}")
-        cov = core.ImplCoverage(prop, repo) if (ctx.thorough or os.environ.get("VERIF_COVERAGE")) and not replay else None
-        if cov:
-            cov.start()
         try:
             if replay:
                 mod.replay(ctx, replay)
